@@ -179,6 +179,7 @@ func mkSelDoc() *selDoc {
 		"k.k":  Map{"c": d.y},
 		"num":  "12.5",
 		"o":    Map{"p": Map{"q": d.x, "r": Map{"z": d.s}}, "w": d.y},
+		"mm":   []any{[]any{d.x, d.y, d.x}, []any{d.x, d.x, d.y}, []any{d.y, d.y, d.x}},
 	}
 	return d
 }
@@ -269,6 +270,16 @@ var selCases = []selCase{
 	{"mix=>o", func(d *selDoc) (any, bool) { return Map{"p_q": d.x, "p_r_z": d.s, "w": d.y}, false }},
 	{"mix=>o.p", func(d *selDoc) (any, bool) { return Map{"q": d.x, "r_z": d.s}, false }},
 	{"mix=>a.b", func(d *selDoc) (any, bool) { return nil, true }},
+	// ranges below the inner length on the 3×3 matrix [[x y x] [x x y] [y y x]], kept, flattened and mixed
+	{"mm[keep=>each:(0:2)]", func(d *selDoc) (any, bool) {
+		return []any{[]any{d.x, d.y}, []any{d.x, d.x}, []any{d.y, d.y}}, false
+	}},
+	{"mm[each:(1:2)]", func(d *selDoc) (any, bool) { return []any{d.y, d.x, d.y}, false }},
+	{"mix=>mm[keep=>each:(0:1)]", func(d *selDoc) (any, bool) { return []any{d.x, d.x, d.y}, false }},
+	{"mix=>mm[keep=>each:(0:2)]", func(d *selDoc) (any, bool) { return []any{d.x, d.y, d.x, d.x, d.y, d.y}, false }},
+	{"mm[keep=>each:(1:2)]::mix=>", func(d *selDoc) (any, bool) { return []any{d.y, d.x, d.y}, false }},
+	{"mm[(0:2)]", func(d *selDoc) (any, bool) { return []any{[]any{d.x, d.y, d.x}, []any{d.x, d.x, d.y}}, false }},
+	{"mix=>mm[(1:3)]", func(d *selDoc) (any, bool) { return []any{d.x, d.x, d.y, d.y, d.y, d.x}, false }},
 	// `::` continuation and the plain selectors its stages spell
 	{"a::b", func(d *selDoc) (any, bool) { return d.x, false }},
 	{"b", func(d *selDoc) (any, bool) { return nil, false }},
